@@ -20,16 +20,30 @@ OFF_MAX = 64800
 
 META = {
     "property": "C07",
-    "proof_modules": ["PyodaProofs.C07"],
+    "proof_modules": ["PyodaProofs.C07", "PyodaProofs.C07b"],
     "drivers": ["drv_text"],
     "theorems": [
-        "Pyoda.C07.parseDigits_leftPad", "Pyoda.C07.parseDigits_pad2", "Pyoda.C07.parseDigits_pad4",
-        "Pyoda.C07.parseFraction_appendFraction", "Pyoda.C07.parseFraction_appendFractionTruncate",
+        "Pyoda.C07.parseDigits_leftPad",
+        "Pyoda.C07.parseDigits_pad2",
+        "Pyoda.C07.parseDigits_pad4",
+        "Pyoda.C07.parseFraction_appendFraction",
+        "Pyoda.C07.parseFraction_appendFraction_exact",
+        "Pyoda.C07.parseFraction_appendFractionTruncate",
         "Pyoda.C07.appendFractionTruncate_removes_dot",
-        "Pyoda.C07.iso_time_roundtrip", "Pyoda.C07.iso_time_long_roundtrip", "Pyoda.C07.iso_time_general_roundtrip",
-        "Pyoda.C07.iso_date_roundtrip", "Pyoda.C07.iso_datetime_roundtrip", "Pyoda.C07.iso_datetime_general_roundtrip",
-        "Pyoda.C07.iso_datetime_bcl_roundtrip", "Pyoda.C07.iso_instant_roundtrip", "Pyoda.C07.iso_offset_roundtrip",
-        "Pyoda.C07.iso_offset_z_roundtrip", "Pyoda.C07.format_deterministic",
+        "Pyoda.C07.iso_time_roundtrip",
+        "Pyoda.C07.iso_time_long_roundtrip",
+        "Pyoda.C07.iso_time_general_roundtrip",
+        "Pyoda.C07.iso_date_roundtrip",
+        "Pyoda.C07.iso_datetime_roundtrip",
+        "Pyoda.C07.iso_datetime_general_roundtrip",
+        "Pyoda.C07.iso_datetime_bcl_roundtrip",
+        "Pyoda.C07.iso_instant_roundtrip",
+        "Pyoda.C07.iso_instant_general_roundtrip",
+        "Pyoda.C07.iso_offset_roundtrip",
+        "Pyoda.C07.iso_offset_z_roundtrip",
+        "Pyoda.C07.iso_time_format_injective",
+        "Pyoda.C07.iso_date_format_injective",
+        "Pyoda.C07.iso_time_general_reformat",
     ],
     "trusted_base": [
         "float step of _ValueCursor._parse_fraction (int(result * math.pow(10.0, scale - count))) is exact for at most 9 digits (products below 2^53); sampled by suite text.num",
@@ -1493,7 +1507,7 @@ def run_iso_correspondence(ctx, who):
         if r.startswith("!"):
             continue
         pops.append(f"iso.parse {t[1]} {r}")
-        if rng.random() < 0.5:
+        if who == "c08" and rng.random() < 0.7:
             s = c08.mutate(rng, unhex(r))
             try:
                 pops.append(f"iso.parse {t[1]} {hexs(s)}")
@@ -1574,7 +1588,8 @@ def custom_cases(ctx):
     cnames = culture_names(ctx, 14)
     npat = ctx.scale(800, 6000)
     ids = cal_ids()
-    cases = [("date", 'yyyy"x"MM', "", "ISO", 1), ("date", "yyyy g", "", "Hebrew Civil", 2), ("date", "R", "", "Julian", 3)]
+    cases = [("date", 'yyyy"x"MM', "", "ISO", 1), ("date", "yyyy g", "", "Hebrew Civil", 2), ("date", "R", "", "Julian", 3),
+             ("time", "ss'.'FF", "", "ISO", 2)]
     pats = []
     for _ in range(npat):
         ty = rng.choices(types, weights)[0]
